@@ -45,7 +45,9 @@ type runner struct {
 	nPub     int
 	nStored  int
 	hasClean bool
+	anyTick  bool // the case contains a free-form "cleanup" op: entries come and go outside the step-by-step bookkeeping
 	nSettle  int
+	nRetry   int
 	// digests of every VAA actually broadcast (observed behaviour, not the model)
 	actualPublished map[string]bool
 }
@@ -74,7 +76,7 @@ func (r *runner) observeEffective(m *msgInfo) bool {
 	if r.e.cur == nil || m.gov {
 		return false
 	}
-	if b := r.e.shadow[m.id.ToString()]; b != nil {
+	if b := r.e.shadow[m.id.ToString()]; b != nil && !r.e.faultDB { // a store that fails every lookup cannot tell
 		if p, err := vh.RefParse(b); err == nil {
 			if m.pub.Timestamp.Sub(time.Unix(int64(p.Body.Timestamp), 0)) > 30*time.Second {
 				return false
@@ -158,6 +160,7 @@ func runProcR(c procCase, o oracles, reqCap int) (*runner, *vh.Violation, vh.Out
 	for _, x := range c.Ops {
 		if x.K == "cleanup" {
 			r.hasClean = true
+			r.anyTick = true
 		}
 	}
 	out := vh.Outcome{}
@@ -197,6 +200,7 @@ func runProcR(c procCase, o oracles, reqCap int) (*runner, *vh.Violation, vh.Out
 func (r *runner) step(i int, x op) *vh.Violation {
 	e := r.e
 	modelOn := !r.hasClean
+	gossipOn := !r.anyTick // C03's before/after comparison only needs to know which entries exist (see resync)
 	switch x.K {
 	case "set":
 		e.applySet(x.A, x.B, x.C, x.D)
@@ -344,7 +348,7 @@ func (r *runner) step(i int, x op) *vh.Violation {
 		appl := r.applicable(hash)
 		signer, acceptable := obsAcceptable(ob, appl)
 		var before map[string]aggEntry
-		if r.o.gossip && modelOn {
+		if r.o.gossip && gossipOn {
 			before = e.aggSnapshot()
 		}
 		e.p.handleObservation(e.ctx, ob)
@@ -356,7 +360,7 @@ func (r *runner) step(i int, x op) *vh.Violation {
 			return vh.V(r.o.pfx+"/unexpected-output", "delivering an observation emitted %d SignedObservations / %d requests", len(so.obs), len(so.reqs))
 		}
 		// ---- C03: side effects only for acceptable observations
-		if r.o.gossip && modelOn {
+		if r.o.gossip && gossipOn {
 			after := e.aggSnapshot()
 			if !acceptable {
 				r.label("rejected:" + kind)
@@ -477,7 +481,7 @@ func (r *runner) step(i int, x op) *vh.Violation {
 					return vh.V("C02/published-header-differs", "published VAA names set %d version %d, want set %d version 1", p.GSIndex, p.Version, d.snapshot.Index)
 				}
 				ch, ok := so.changed[m.id.ToString()]
-				if !ok && !bytes.Equal(e.shadow[m.id.ToString()], so.vaas[0]) {
+				if !ok && !e.faultDB && !bytes.Equal(e.shadow[m.id.ToString()], so.vaas[0]) {
 					return vh.V("C02/published-not-stored", "VAA was broadcast but the store does not hold it")
 				}
 				if ok && !bytes.Equal(ch[1], so.vaas[0]) {
@@ -601,7 +605,46 @@ func (r *runner) step(i int, x op) *vh.Violation {
 		if len(e.p.state.vaaSignatures) != before || len(so.obs) != 0 {
 			r.hasClean = true // an entry was expired (its VAA is stored) or retried: the step-by-step model ends here
 		}
+		r.resync()
 		r.label("settled-mid-aggregation")
+		return nil
+
+	case "retry": // more than five minutes pass and two cleanup ticks run: entries settle, then every pending own observation is re-broadcast
+		if r.nRetry >= 2 || e.cur == nil {
+			return nil
+		}
+		r.nRetry++
+		for k, d := range []time.Duration{5*time.Minute + 500*time.Millisecond, 1500 * time.Millisecond} {
+			e.shiftTimes(d)
+			e.p.handleCleanup(e.ctx)
+			so, v := e.drain()
+			if v != nil {
+				return v
+			}
+			if len(so.vaas) != 0 || len(so.changed) != 0 {
+				return vh.V(r.o.pfx+"/cleanup-published", "a cleanup tick published or stored a VAA")
+			}
+			for _, ob := range so.obs {
+				if a, err := vh.RefRecover(ob.Hash, ob.Signature); err != nil || a != vh.Addr(e.ownKey) {
+					return vh.V(r.o.pfx+"/cleanup-rebroadcast-foreign", "cleanup re-broadcast an observation not signed by the node")
+				}
+				if k == 1 {
+					r.label("own-observation-retransmitted")
+				}
+			}
+		}
+		r.hasClean = true // parked entries were dropped, retries sent: C02's step-by-step model ends here
+		r.resync()
+		return nil
+
+	case "storefault": // from here on the VAA store fails every call (closed handle, dead disk)
+		if e.cur == nil || e.faultDB {
+			return nil
+		}
+		if err := e.breakStore(); err != nil {
+			return vh.V("harness/store-fault", "%v", err)
+		}
+		r.label("store-failing")
 		return nil
 
 	case "cleanup":
@@ -625,6 +668,18 @@ func (r *runner) step(i int, x op) *vh.Violation {
 		return nil
 	}
 	return nil
+}
+
+// resync: cleanup ticks drop entries (parked signatures after five minutes, entries whose VAA is stored). What the
+// model remembers about a digest whose entry is gone is forgotten with it: the next observation starts a new
+// aggregation lifetime, judged against the set that is current then.
+func (r *runner) resync() {
+	for h, d := range r.model {
+		if _, ok := r.e.p.state.vaaSignatures[h]; !ok && d.exists {
+			d.observed, d.snapshot, d.exists = false, nil, false
+			d.accepted = map[ethcommon.Address]bool{}
+		}
+	}
 }
 
 func (r *runner) expectQuiet(so *stepOut, what string) *vh.Violation {
